@@ -7,6 +7,7 @@ import (
 	"os"
 	"path/filepath"
 
+	blocks "github.com/ipfs/go-block-format"
 	"github.com/ipfs/go-cid"
 	"github.com/ipld/go-car/v2/blockstore"
 	"github.com/ipld/go-car/v2/storage"
@@ -39,6 +40,8 @@ type c12Session struct {
 	fresh   bool
 	eager   bool
 	notrunc bool
+	// batchWith, when set, makes every put of the blockstore API a PutMany of [*batchWith, block]
+	batchWith *refcar.Block
 }
 
 func (s *c12Session) open(roots []cid.Cid, cfg lab.Cfg) error {
@@ -65,6 +68,11 @@ func (s *c12Session) open(roots []cid.Cid, cfg lab.Cfg) error {
 	return err
 }
 func (s *c12Session) put(b refcar.Block) error {
+	if s.api == "blockstore" && s.batchWith != nil {
+		// the block arrives in a batch behind blocks that are skipped (an identity block, not stored under the
+		// default options of these configurations, and — once stored — the session's first block again)
+		return s.bs.PutMany(bg, []blocks.Block{lab.ToBlock(*s.batchWith), lab.ToBlock(b)})
+	}
 	if s.api == "blockstore" {
 		return s.bs.Put(bg, lab.ToBlock(b))
 	}
@@ -152,6 +160,10 @@ func runC12(t *mon.T, raw json.RawMessage) {
 	if s.eager && d.API == "storage" {
 		t.Cover("storage-backend-with-eager-eof")
 	}
+	if d.API == "blockstore" && d.Seed&4 == 0 && len(blks) >= 2 && !cfg.AllowDup {
+		s.batchWith = &blks[0] // de-duplicated from the second batch on: a skipped block ahead of a written one
+		t.Cover("blockstore-puts-as-batches-with-a-skipped-block")
+	}
 	t.Cover("api:" + d.API)
 	t.Cover("cfg:" + cfg.Short())
 	key := func(k string) string { return d.API + "/" + k }
@@ -168,9 +180,17 @@ func runC12(t *mon.T, raw json.RawMessage) {
 			return
 		}
 	}
+	finRefused := false
 	if err := s.finalize(); err != nil {
-		t.Violatef(key("finalize/error"), "finalize failed: %v", err)
-		return
+		if !cfg.NoIdx {
+			t.Violatef(key("finalize/error"), "finalize failed: %v", err)
+			return
+		}
+		// a session opened WithoutIndex: the library refuses to finalize it. Interrupted sessions must
+		// then be refused alike and leave the same bytes; if Finalize does succeed, the usual rules apply
+		finRefused = true
+		s.discard()
+		t.Cover("without-index:finalize-refused")
 	}
 	want := s.bytes()
 	t.Nontrivial()
@@ -216,7 +236,13 @@ func runC12(t *mon.T, raw json.RawMessage) {
 				t.Cover("interrupt:discard")
 			case 2:
 				if err := s.finalize(); err != nil {
-					t.ViolateD(key("finalize-before-reopen/error"), map[string]any{"plan": str}, "Finalize before reopen failed: %v", err)
+					if !finRefused {
+						t.ViolateD(key("finalize-before-reopen/error"), map[string]any{"plan": str}, "Finalize before reopen failed: %v", err)
+						return false
+					}
+					s.discard() // refused like the uninterrupted session's: the file stays as it is
+				} else if finRefused {
+					t.ViolateD(key("without-index/finalize-succeeds-only-when-interrupting"), map[string]any{"plan": str}, "Finalize is refused at the end of the uninterrupted session and accepted as an interruption")
 					return false
 				}
 				t.Cover("interrupt:finalize")
@@ -248,7 +274,13 @@ func runC12(t *mon.T, raw json.RawMessage) {
 			continue
 		}
 		if err := s.finalize(); err != nil {
-			t.ViolateD(key("final-finalize/error"), map[string]any{"plan": str}, "final Finalize failed: %v", err)
+			if !finRefused {
+				t.ViolateD(key("final-finalize/error"), map[string]any{"plan": str}, "final Finalize failed: %v", err)
+				continue
+			}
+			s.discard()
+		} else if finRefused {
+			t.ViolateD(key("without-index/final-finalize-succeeds-only-after-an-interruption"), map[string]any{"plan": str}, "the final Finalize is refused in the uninterrupted session and accepted in an interrupted one")
 			continue
 		}
 		got := s.bytes()
@@ -338,7 +370,7 @@ func c12Mismatch(t *mon.T, d c12Desc, s *c12Session, r *gen.RandT, roots []cid.C
 
 func genC12(g *mon.G) {
 	r := gen.Rand(g.Seed)
-	cfgs := []lab.Cfg{{}, {DataPad: 9, IndexPad: 3}, {V1: true}, {StoreID: true, Sorted: true}, {WholeCID: true, AllowDup: true}, {DataPad: 1413, StoreID: true, WholeCID: true}, {V1: true, DataPad: 300}, {MaxSec: 64}, {MaxCid: 1}}
+	cfgs := []lab.Cfg{{}, {DataPad: 9, IndexPad: 3}, {V1: true}, {StoreID: true, Sorted: true}, {WholeCID: true, AllowDup: true}, {DataPad: 1413, StoreID: true, WholeCID: true}, {V1: true, DataPad: 300}, {MaxSec: 64}, {MaxCid: 1}, {NoIdx: true}}
 	if g.Thorough() {
 		cfgs = append(cfgs, lab.Cfg{V1: true, StoreID: true}, lab.Cfg{IndexPad: 1024, Sorted: true}, lab.Cfg{V1: true, AllowDup: true, WholeCID: true}, lab.Cfg{DataPad: 1, ZeroEOF: true})
 	}
